@@ -112,11 +112,10 @@ def run_c13(out, tier, seed, replay):
                 add(p, var, ops, {"segments": c["segs"]}, c["lms"][-1])
     n_hist = len(cases)
     # ---- (b) idempotence: run; run; run on every program of the corpus
-    # (quick: databases with at most 3 facts; the largest ones are kept by select_cases)
     # programs with a custom provider: their closure makes exhaustive enumeration expensive; seeded random schedules
     # with the least model from SemEval instead
     is_ds = lambda p: any(r["ds"] != "-" for r in p["rels"])
-    sel_b = [dict(p, bound=min(p["bound"], 3)) if tier == "quick" else p for p in sel if not is_ds(p) or tier != "quick"]
+    sel_b = [p for p in sel if not is_ds(p) or tier != "quick"]
     gen, by = semlib.enumerate_inputs(sel_b, work, "quick")
     out.add_tlc(gen, "SemGen (input databases for the idempotence histories)")
     if tier == "quick":
